@@ -347,7 +347,24 @@ def tabulate_dispatch(d):
     return tab, subsets
 
 
-def emit(poly, sizes, disp, subsets):
+NEAR_MAX = 10
+
+
+def tabulate_nearest():
+    """index maps of cv2.resize(INTER_NEAREST) along columns and along rows, for all sizes n -> N up to NEAR_MAX"""
+    import cv2
+
+    tab = []
+    for n in range(1, NEAR_MAX + 1):
+        for N in range(1, NEAR_MAX + 1):
+            a = np.arange(n, dtype=np.int32)
+            cols = call(lambda: cv2.resize(a.reshape(1, n), (N, 1), interpolation=cv2.INTER_NEAREST)[0].tolist())
+            rows = call(lambda: cv2.resize(a.reshape(n, 1), (1, N), interpolation=cv2.INTER_NEAREST)[:, 0].tolist())
+            tab.append((n, N, [] if isinstance(cols, Raised) else cols, [] if isinstance(rows, Raised) else rows))
+    return tab
+
+
+def emit(poly, sizes, disp, subsets, near=()):
     L = ["import DarsiaModel.SignalModels", "namespace Darsia.Gen", "open Darsia Darsia.Sig", ""]
     L.append(f"def polyDegrees : List Nat := [{', '.join(str(k) for k in sorted(poly))}]")
     L.append("/-- exponents of basis function k of PolynomialApproximationSpace(d), decoded from basis((2,3), k); `none`: undecodable -/")
@@ -377,7 +394,10 @@ def emit(poly, sizes, disp, subsets):
     for kind in KINDS:
         r = disp[(kind, "all")]
         L.append(f"  | .{kind} => " + (f".error .{r.cls}" if isinstance(r, Raised) else (".ok none" if r is None else f".ok (some {r})")))
-    L += ["", "end Darsia.Gen"]
+    L += ["", "/-- (n, N, source index per destination index along columns, along rows) of cv2.resize INTER_NEAREST -/",
+          "def nearTable : List (Nat × Nat × List Nat × List Nat) := ["]
+    L.append(",\n".join(f"  ({n}, {N}, {c}, {r})" for n, N, c, r in near))
+    L += ["]", "", "end Darsia.Gen"]
     return "\n".join(L) + "\n"
 
 
@@ -969,6 +989,94 @@ def oracle_kernel_parameters(ctx, d):
                      {"dofs": dofs, "observed": repr(out), "exception": str(getattr(out, 'exc', ''))[:120]})
 
 
+# ---------------------------------------------------------------------------
+# wrapper HeterogeneousModel, label maps of another shape (cv2 nearest), the isclose boundary of ScalingModel
+
+
+def boundary_scalings():
+    """the floats adjacent to the boundaries 1 +- (1e-8 + 1e-5) of the model's guard: (inside, outside) above and below 1"""
+    import math
+
+    tau = Fraction(1001, 10**8)
+    k = math.floor(tau * 2**52)
+    k2 = math.floor(tau * 2**53)
+    return [(1 + k / 2**52, True), (1 + (k + 1) / 2**52, False), (1 - k2 / 2**53, True), (1 - (k2 + 1) / 2**53, False)]
+
+
+def wrapper_resize_boundary(ctx, d):
+    rng = ctx.rng
+    lines, impl = [], []
+    # (1) generic wrapper with one (homogeneous) model per label
+    for _ in range(ctx.pick(40, 400)):
+        L = rng.randint(1, 5)
+        models = []
+        while len(models) < L:
+            m = gen_models(rng, 1, 1)[0]
+            if m[0] != "het":
+                models.append(m)
+        shape = (rng.randint(1, 3), rng.randint(2, 4))
+        while shape[0] * shape[1] < L:
+            shape = (shape[0] + 1, shape[1])
+        npx = shape[0] * shape[1]
+        labs = list(range(L)) + [rng.randrange(L) for _ in range(npx - L)]
+        rng.shuffle(labs)
+        label_values = sorted(rng.sample(range(0, 40), L))
+        pix = [(l, dy(rng, -32, 32, 16)) for l in labs]
+        lines.append(f"wrap {L} " + " ".join(tok_model(m) for m in models) + f" | {npx} " + " ".join(f"{l} {fmt(v)}" for l, v in pix))
+        lab = np.array([label_values[l] for l in labs]).reshape(shape)
+        sig = np.array([float(v) for _, v in pix]).reshape(shape)
+        hm = call(d.HeterogeneousModel, d.LinearModel(), d.Image(lab, dimensions=[1.0, 1.0], scalar=True))
+        if isinstance(hm, Raised):
+            impl.append(repr(hm))
+            continue
+        for i, l in enumerate(np.unique(lab)):
+            hm.obj[l] = build(d, models[i], lab)
+        out = call(hm, sig.copy())
+        impl.append(repr(out) if isinstance(out, Raised) else ("!shape" if np.asarray(out).shape != shape else fmts(np.asarray(out).ravel())))
+    ctx.correspond("heterogeneous-wrapper", lines, impl)
+
+    # (2) label maps of another shape: the label map in force is read off the output (scaling = position of the label + 2, signal = 1)
+    lines, impl = [], []
+    for t in range(ctx.pick(40, 300)):
+        h, w, H, W = (rng.randint(1, NEAR_MAX) for _ in range(4))
+        if t % 5 == 0:
+            H, W = h, w
+        L = rng.randint(1, 4)
+        label_values = sorted(rng.sample(range(0, 40), L))
+        lab = np.array([rng.choice(label_values) for _ in range(h * w)], dtype=rng.choice([np.uint8, np.int32, np.int64])).reshape(h, w)
+        uniq = np.unique(lab)
+        lines.append(f"resize {h} {w} {H} {W} " + " ".join(str(int(v)) for v in lab.ravel()))
+        m = call(d.HeterogeneousLinearModel, lab, scaling=[float(i + 2) for i in range(len(uniq))], offset=[0.0] * len(uniq))
+        out = m if isinstance(m, Raised) else call(m, np.ones((H, W)))
+        if isinstance(out, Raised) or np.asarray(out).shape != (H, W):
+            impl.append(repr(out) if isinstance(out, Raised) else "!shape")
+            continue
+        dec = np.asarray(out)
+        if not np.all((dec >= 2) & (dec < len(uniq) + 2) & (dec == np.round(dec))):
+            impl.append("!values")
+            continue
+        rows = [" ".join(str(int(uniq[int(v) - 2])) for v in row) for row in dec]
+        impl.append(" ; ".join(rows))
+        # state: a later signal of the original shape gets the original labels again
+        lines.append(f"resize {h} {w} {h} {w} " + " ".join(str(int(v)) for v in lab.ravel()))
+        back = call(m, np.ones((h, w)))
+        impl.append(repr(back) if isinstance(back, Raised) else " ; ".join(" ".join(str(int(uniq[int(v) - 2])) for v in row) for row in np.asarray(back)))
+    ctx.correspond("label-map-resize", lines, impl)
+
+    # (3) the isclose boundary of ScalingModel: the two floats next to either boundary, signals +-2^j (exact products)
+    ok = True
+    cases = []
+    for sval, inside in boundary_scalings():
+        if bool(np.isclose(sval, 1.0)) != inside:
+            ok = False
+            ctx.mark("TIE-BROKEN", {"isclose": "np.isclose(s, 1.0) disagrees with the model's guard |s-1| <= 1e-8 + 1e-5 next to the boundary", "s": repr(sval)})
+        pix = [(0, Fraction(sg * 2**j)) for j in (-3, 0, 2, 5) for sg in (1, -1)]
+        cases.append(Case("single", [("scaling", Fraction(sval))], None, pix, [0], (2, 4)))
+        cases.append(Case("comb", [("scaling", Fraction(sval)), ("clip", Fraction(-100), Fraction(100))], None, pix, [0], (8,)))
+    ctx.correspond("scaling-isclose-boundary", [c.line() for c in cases], [c.run_impl(d) for c in cases])
+    ctx.cov["isclose_boundary"] = {"floats_adjacent_to_boundary_agree_with_guard": ok, "scalings": [repr(s_) for s_, _ in boundary_scalings()]}
+
+
 def oracle_kernel(ctx, d):
     rng = np.random.default_rng(ctx.rng.randrange(2**31))
     worst_rep, worst_numba = 0.0, 0.0
@@ -1113,7 +1221,8 @@ def run(ctx):
 
     poly, sizes = tabulate_poly(d)
     disp, subsets = tabulate_dispatch(d)
-    ctx.write_gen("SignalTables", emit(poly, sizes, disp, subsets))
+    near = tabulate_nearest()
+    ctx.write_gen("SignalTables", emit(poly, sizes, disp, subsets, near))
     ctx.cov["generated_tables"] = {"poly_degrees": len(poly), "dispatch_entries": len(disp)}
     ctx.prove("C14")
 
@@ -1142,6 +1251,7 @@ def run(ctx):
         pi.append("!raises" if isinstance(ex, Raised) or isinstance(s, Raised) else f"{s} | " + " ".join("?" if e is None else f"{e[0]} {e[1]}" for e in ex))
     ctx.correspond("poly-exponents", pl, pi)
 
+    wrapper_resize_boundary(ctx, d)
     oracle_poly(ctx, d, poly, sizes)
     oracle_models(ctx, d)
     oracle_threshold(ctx, d, thr)
